@@ -95,47 +95,35 @@ theorem header_no_moves (c : Cmd) (hc : c.Ok) : ∀ w ∈ c.header, w ≠ kwMove
 theorem header_ne_nil (c : Cmd) : c.header ≠ [] := by
   unfold Cmd.header; cases c.fen <;> simp
 
-theorem words_no_space (c : Cmd) (hc : c.Ok) : ∀ w ∈ c.words, ' ' ∉ w := by
-  intro w hw
-  simp only [Cmd.words, List.mem_cons, List.mem_append] at hw
-  rcases hw with h | h | h
-  · subst h; decide
-  · unfold Cmd.header at h
-    cases hf : c.fen with
-    | none => rw [hf] at h; simp at h; subst h; decide
-    | some fs =>
-      rw [hf] at h; simp at h
-      rcases h with h | h
-      · subst h; decide
-      · exact ((hc.1 fs hf).2 w h).1.2
-  · unfold Cmd.tail at h
-    split at h
-    · simp at h
-    · simp at h
-      rcases h with h | h
-      · subst h; decide
-      · exact (hc.2 w h).1.2
+theorem word_of_lit (w : List Char) (h : (w ≠ [] ∧ ∀ c ∈ w, Fen.isSpace c = false)) : Word w := h
 
-theorem words_ne_nil_each (c : Cmd) (hc : c.Ok) : ∀ w ∈ c.words, w ≠ [] := by
+/-- Every word of a well-formed command is a `Word`. -/
+theorem words_word (c : Cmd) (hc : c.Ok) : ∀ w ∈ c.words, Word w := by
   intro w hw
   simp only [Cmd.words, List.mem_cons, List.mem_append] at hw
   rcases hw with h | h | h
-  · subst h; decide
+  · subst h; exact word_of_lit _ (by decide)
   · unfold Cmd.header at h
     cases hf : c.fen with
-    | none => rw [hf] at h; simp at h; subst h; decide
+    | none => rw [hf] at h; simp at h; subst h; exact word_of_lit _ (by decide)
     | some fs =>
       rw [hf] at h; simp at h
       rcases h with h | h
-      · subst h; decide
-      · exact ((hc.1 fs hf).2 w h).1.1
+      · subst h; exact word_of_lit _ (by decide)
+      · exact ((hc.1 fs hf).2 w h).1
   · unfold Cmd.tail at h
     split at h
     · simp at h
     · simp at h
       rcases h with h | h
-      · subst h; decide
-      · exact (hc.2 w h).1.1
+      · subst h; exact word_of_lit _ (by decide)
+      · exact (hc.2 w h).1
+
+theorem words_no_space (c : Cmd) (hc : c.Ok) : ∀ w ∈ c.words, ' ' ∉ w :=
+  fun w hw => Word.no_space (words_word c hc w hw)
+
+theorem words_ne_nil_each (c : Cmd) (hc : c.Ok) : ∀ w ∈ c.words, w ≠ [] :=
+  fun w hw => (words_word c hc w hw).1
 
 theorem splitSpaces_render (c : Cmd) (hc : c.Ok) : Fen.splitSpaces c.render = c.words :=
   splitSpaces_joinSp c.words (by simp [Cmd.words]) (words_no_space c hc)
